@@ -337,12 +337,23 @@ def appenderS : Schema :=
 
 /-- Model flag for finding C14/appender-envelope-error-rejects-document: `false` = the code as it
 is (`RawConfig.appenders : HashMap<String, AppenderConfig>`: a missing or ill-typed `kind`, an
-ill-shaped `filters` list or a filter without `kind` fail the whole DOCUMENT); `true` = after a
-`fix:` commit that stores the appender entries as raw values and runs `AppenderConfig::deserialize`
-inside `appenders_lossy` (such an appender is then reported and dropped). -/
-def appenderEnvelopeLazy : Bool := false
+ill-shaped `filters` list or a filter entry without a string `kind` fail the whole DOCUMENT);
+`true` = after the `fix:` commit that keeps the appender entries raw (`HashMap<String, Value>`) and
+types the envelope inside `appenders_lossy` (`split_appender`): a broken appender envelope is
+reported as `Appender(name, …)` and only that appender is dropped; a broken filter envelope is
+reported as `Filter(name, …)` and only that filter is dropped. -/
+def appenderEnvelopeLazy : Bool := true
 
-def appenderEntryS : Schema := if appenderEnvelopeLazy then .lazy appenderS else appenderS
+/-- `AppenderConfig` after the fix: the filter entries stay raw until they are looked at one by one -/
+def appenderLazyS : Schema :=
+  .tagged none true [dfl (c!"filters") (.list []) (.seqOf (.lazy filterS))]
+    [(c!"console", consoleAppenderS), (c!"file", fileAppenderS),
+     (c!"rolling_file", rollingFileAppenderS)]
+
+def appenderEntrySWith (lazyEnvelope : Bool) : Schema :=
+  if lazyEnvelope then .lazy appenderLazyS else appenderS
+
+def appenderEntryS : Schema := appenderEntrySWith appenderEnvelopeLazy
 
 def namesS : Schema := .seqOf (.leaf .str)
 /-- `Root`: level defaults to Debug (4) -/
@@ -353,9 +364,13 @@ def rootDefault : Typed := .record [(c!"level", .level 4), (c!"appenders", .list
 def loggerS : Schema :=
   .struct true [req (c!"level") (.leaf .level), dfl (c!"appenders") (.list []) namesS,
     dfl (c!"additive") (.bool true) (.leaf .bool)]
-/-- `RawConfig` -/
-def docS : Schema :=
+/-- `RawConfig`, before (`false`) and after (`true`) the lazy-envelope fix -/
+def docSWith (lazyEnvelope : Bool) : Schema :=
   .struct true [optF (c!"refresh_rate") (.leaf .duration), dfl (c!"root") rootDefault rootS,
-    dfl (c!"appenders") (.dict []) (.mapOf appenderEntryS), dfl (c!"loggers") (.dict []) (.mapOf loggerS)]
+    dfl (c!"appenders") (.dict []) (.mapOf (appenderEntrySWith lazyEnvelope)),
+    dfl (c!"loggers") (.dict []) (.mapOf loggerS)]
+
+/-- `RawConfig` -/
+def docS : Schema := docSWith appenderEnvelopeLazy
 
 end Log4rs.ConfigDoc
